@@ -31,7 +31,7 @@ PARTS = {"msgpack": (("msgpack", "common"), []), "json": (("common",), []), "xml
          "csv": (("csv", "common"), []), "conv": ((), [])}
 N_TARGETS = {"msgpack": 16, "json": 16, "xml": 7, "csv": 2}
 CONV_RUNS = {"num": lambda m: 4, "dt": lambda m: 4, "du": lambda m: 4, "utf": lambda m: 2 + 2 * m}   # runs per converter input (m media)
-ASAN_OPTIONS = "allocator_may_return_null=0:max_allocation_size_mb=1024:detect_leaks=1:abort_on_error=0"
+ASAN_OPTIONS = "allocator_may_return_null=0:max_allocation_size_mb=1024:detect_leaks=1:symbolize=0"      # no symbolizer: a report must not spawn llvm-symbolizer
 JOBS = int(os.environ.get("VERIF_C02_JOBS", "8"))
 DEV_CAP = 12           # failures recorded per (deviation, format, build) class; every occurrence is counted in the evidence
 
@@ -190,7 +190,8 @@ def generate_converter_inputs(chk, tier):
 def group_key(o):
     return (o["o"], o.get("x", "") if o["o"] != "Completed" else "", o.get("kind", ""), o.get("file", ""), o.get("sig", 0),
             bool(o.get("stack", False)), o["acc"],
-            o["t"] == "encstream" or (o["m"] != "mem" and o["t"] != "transcode" and "/" not in o["t"]))     # input travelled through a stream reader
+            o["t"] == "encstream" or (o["m"] != "mem" and o["t"] != "transcode" and "/" not in o["t"]),     # input travelled through a stream reader
+            o["pk"] > 131072, o["tb"] > 262144)       # runs with large requests are kept apart from the ordinary ones (counts stay meaningful)
 
 
 def aggregate(inputs, lines, build, expected_runs):
@@ -218,6 +219,8 @@ def aggregate(inputs, lines, build, expected_runs):
             if o["o"] not in ("Completed", "StdException"):
                 samples[(i, k)] = o
         else:
+            if o["pk"] > g["pk"]:
+                g["ex"] = "%s/%s/%s" % (o["t"], o["p"], o["m"])        # the example is the run with the largest request
             g["pk"] = max(g["pk"], o["pk"])
             g["tb"] = max(g["tb"], o["tb"])
             g["cnt"] += 1
@@ -243,7 +246,7 @@ def run_shard(exe, inputs, media, cpu, sanitized, tag, leakcheck):
                 row["u"] = inp["u"]
                 row["sf"] = inp.get("sf", 8)
             f.write(json.dumps(row, separators=(",", ":")) + "\n")
-    env = {"ASAN_OPTIONS": ASAN_OPTIONS, "UBSAN_OPTIONS": "print_stacktrace=0"}
+    env = {"ASAN_OPTIONS": ASAN_OPTIONS, "UBSAN_OPTIONS": "print_stacktrace=0:symbolize=0"}
     if leakcheck:
         env["RB_LEAKCHECK"] = "1"
     p = vlib.run([exe, "run", path, ",".join(media), str(cpu)], timeout=2400, env=env if sanitized else None, check=False)
@@ -269,62 +272,104 @@ def make_shards(inputs, nshards):
     return [s for s in shards if s]
 
 
-def execute_leg(chk, part, exe, inputs, media, build, cpu, stats, leakcheck=False):
-    """Runs the inputs of one part on one build, lets TLC judge, registers the rejected observations."""
+def plan_leg(tasks, part, exe, inputs, media, build, cpu, leakcheck=False):
+    """Splits the inputs of one (part, build) leg into shard tasks."""
     if not inputs:
         return
     sanitized = build == "san"
-    nm = len(media)
-
-    def expected(inp):
-        if part == "conv":
-            return CONV_RUNS[inp["fmt"]](nm)
-        return N_TARGETS[part] * 2 * nm
-
     per_shard = 250 if sanitized else 1500
     shards = make_shards(inputs, max(1, min(4 * JOBS, (len(inputs) + per_shard - 1) // per_shard)))
+    for k, shard in enumerate(shards):
+        tasks.append({"part": part, "exe": exe, "inputs": shard, "media": media, "build": build, "cpu": cpu, "leak": leakcheck,
+                      "tag": "%s-%s-%d" % (part, build, k)})
+
+
+def run_task(t):
+    """One harness process; its output is condensed to trace records at once (the raw run lines are not kept)."""
+    nm = len(t["media"])
+
+    def expected(inp):
+        if t["part"] == "conv":
+            return CONV_RUNS[inp["fmt"]](nm)
+        return N_TARGETS[t["part"]] * 2 * nm
+
     t0 = time.time()
-    with ThreadPoolExecutor(max_workers=JOBS) as ex:
-        outs = list(ex.map(lambda a: run_shard(exe, a[1], media, cpu, sanitized, "%s-%s-%d" % (part, build, a[0]), leakcheck), enumerate(shards)))
-    lines = []
-    samples = {}
-    byid = {}
-    nruns = 0
-    for shard, out in zip(shards, outs):
-        recs, smp = aggregate(shard, out, build, expected)
+    out = run_shard(t["exe"], t["inputs"], t["media"], t["cpu"], t["build"] == "san", t["tag"], t["leak"])
+    recs, smp = aggregate(t["inputs"], out, t["build"], expected)
+    samples = {(t["inputs"][i]["id"], k): o for (i, k), o in smp.items()}
+    return recs, samples, time.time() - t0
+
+
+class Judge:
+    """Collects trace records and has them judged by Trace_Robust in batches."""
+
+    def __init__(self, chk, stats):
+        self.chk, self.stats = chk, stats
+        self.lines, self.byid, self.samples = [], {}, {}
+        self.wall = 0.0
+
+    def add(self, task, recs, samples):
+        stats = self.stats
+        part, build = task["part"], task["build"]
         for rec in recs:
-            byid[rec["id"]] = rec
+            self.byid[(rec["id"], build)] = (rec, task)
             for g in rec["groups"]:
-                nruns += g["cnt"]
+                stats["runs"][(build, part)] += g["cnt"]
                 stats["outcomes"][(build, part, g["o"] + ((":" + g["kind"]) if g["kind"] else (":" + g["x"]) if g["o"] not in ("Completed", "StdException") else ""))] += g["cnt"]
-                if g["acc"] == "malloc" and rec["fmt"] in N_TARGETS and g["o"] in ("Completed", "StdException"):
+                if g["acc"] == "malloc" and rec["fmt"] in N_TARGETS and g["o"] in ("Completed", "StdException") and rec["cls"] in ("valid", "nest", "wide"):
                     n = sum(s[0] * len(s[1]) for s in rec["rle"])
-                    if rec["cls"] in ("valid", "nest", "wide"):
-                        stats["maxpk_wellformed"] = max(stats["maxpk_wellformed"], (g["pk"] - 131072) / max(n, 1))
-                        stats["maxtb_wellformed"] = max(stats["maxtb_wellformed"], (g["tb"] - 262144) / max(n, 1))
-            lines.append(json.dumps(rec, separators=(",", ":")))
-        for (i, k), o in smp.items():
-            samples[(shard[i]["id"], k)] = o
-    stats["runs"][(build, part)] += nruns
-    stats["inputs"][(build, part)] += len(inputs)
-    stats["wall"][(build, part)] = round(stats["wall"].get((build, part), 0) + time.time() - t0, 1)
-    checked, bad = vlib.validate_traces("Trace_Robust", lines, cfg="Trace_Robust.cfg", shards=min(vlib.NCPU, max(1, len(lines) // 400 + 1)), timeout=1700, xmx="3g")
-    chk.add_cases(nruns, validated=checked)
-    for b in bad:
-        rec = byid[b["id"]]
-        g = rec["groups"][b["g"] - 1]
-        dev = b["dev"] or None
-        cls_key = (dev or "(unexplained) " + b["why"], part, build)
-        stats["rejected"][cls_key] += g["cnt"]
-        stats["rejected_inputs"][cls_key] += 1
-        if dev and stats["rejected_inputs"][cls_key] > DEV_CAP:
-            continue
-        obs = samples.get((b["id"], (g["o"], g["x"], g["kind"], g["file"], g["sig"], g["stack"], g["acc"], g["stream"])), g)
-        doc = describe_input(rec)
-        chk.fail("%s input %s (%s, %d bytes): %s in %d run(s), e.g. %s on the %s build" % (
-            part, b["id"], doc, b["n"], b["why"], g["cnt"], g["ex"], "ASan+UBSan" if sanitized else "normal"),
-            {"input": {"id": rec["id"], "fmt": rec["fmt"], "cls": rec["cls"], "rle": rec["rle"], "u": rec["u"], "sf": next((i.get("sf", 8) for i in inputs if i["id"] == rec["id"]), 8)},
-             "build": build, "media": media, "group": g, "observation": obs, "verdict": b}, dev=dev)
+                    stats["maxpk_wellformed"] = max(stats["maxpk_wellformed"], (g["pk"] - 131072) / max(n, 1))
+                    stats["maxtb_wellformed"] = max(stats["maxtb_wellformed"], (g["tb"] - 262144) / max(n, 1))
+            self.lines.append(json.dumps(rec, separators=(",", ":")))
+        stats["inputs"][(build, part)] += len(recs)
+        for (rid, k), o in samples.items():
+            self.samples[(rid, build, k)] = o
+        if len(self.lines) >= 60000:
+            self.flush()
+
+    def flush(self):
+        if not self.lines:
+            return
+        chk, stats = self.chk, self.stats
+        t1 = time.time()
+        checked, bad = vlib.validate_traces("Trace_Robust", self.lines, cfg="Trace_Robust.cfg", shards=min(vlib.NCPU, max(1, len(self.lines) // 1500 + 1)),
+                                            timeout=1700, xmx="3g")
+        self.wall += time.time() - t1
+        chk.add_cases(0, validated=checked)
+        for b in bad:
+            rec, task = self.byid[(b["id"], b["build"])]
+            part, build = task["part"], task["build"]
+            g = rec["groups"][b["g"] - 1]
+            dev = b["dev"] or None
+            cls_key = (dev or "(unexplained) " + b["why"], part, build)
+            stats["rejected"][cls_key] += g["cnt"]
+            stats["rejected_inputs"][cls_key] += 1
+            if dev and stats["rejected_inputs"][cls_key] > DEV_CAP:
+                continue
+            gk = (g["o"], g["x"], g["kind"], g["file"], g["sig"], g["stack"], g["acc"], g["stream"])
+            obs = next((o for (i2, b2, k2), o in self.samples.items() if i2 == b["id"] and b2 == build and k2[:8] == gk), g)
+            sf = next((i.get("sf", 8) for i in task["inputs"] if i["id"] == rec["id"]), 8)
+            chk.fail("%s input %s (%s, %d bytes): %s in %d run(s), e.g. %s on the %s build" % (
+                part, b["id"], describe_input(rec), b["n"], b["why"], g["cnt"], g["ex"], "ASan+UBSan" if build == "san" else "normal"),
+                {"input": {"id": rec["id"], "fmt": rec["fmt"], "cls": rec["cls"], "rle": rec["rle"], "u": rec["u"], "sf": sf},
+                 "build": build, "media": task["media"], "group": g, "observation": obs, "verdict": b}, dev=dev)
+        self.lines, self.byid, self.samples = [], {}, {}
+
+
+def execute(chk, tasks, stats):
+    """Runs all shard tasks with JOBS harness processes at a time; the heavy (sanitizer, deep nesting) shards start first."""
+    tasks.sort(key=lambda t: -(sum(weight(i) for i in t["inputs"]) * (12 if t["build"] == "san" else 1)))
+    judge = Judge(chk, stats)
+    nruns0 = sum(stats["runs"].values())
+    with ThreadPoolExecutor(max_workers=JOBS) as ex:
+        futs = [(t, ex.submit(run_task, t)) for t in tasks]
+        for t, f in futs:
+            recs, samples, wall = f.result()
+            stats["wall"][(t["build"], t["part"])] = round(stats["wall"].get((t["build"], t["part"]), 0) + wall, 1)
+            judge.add(t, recs, samples)
+    judge.flush()
+    stats["wall"][("judge", "all")] = round(judge.wall, 1)
+    chk.add_cases(sum(stats["runs"].values()) - nruns0)
 
 
 def describe_input(rec):
@@ -374,23 +419,27 @@ def run_check(tier, only_inputs=None):
     rnd = random.Random(vlib.seed())
     media_gcc = ["mem", "sstream"] if quick else ["mem", "sstream", "short3"]
     media_san = ["mem", "sstream"]
+    tasks = []
     for part in ("msgpack", "json", "xml", "csv"):
         mine = [i for i in docs if i["fmt"] == part]
-        execute_leg(chk, part, exes[part], mine, media_gcc, "gcc", 10, stats)
+        plan_leg(tasks, part, exes[part], mine, media_gcc, "gcc", 10)
         if quick and only_inputs is None:
             # sanitizer subset: everything except a seeded sample (one in six) of the truncations and corruptions
             sub = [i for i in mine if i["cls"] not in ("cut", "flip") or rnd.random() < 1 / 6]
         else:
             sub = mine
-        execute_leg(chk, part, exes_san[part], sub, media_san, "san", 60, stats, leakcheck=True)
-    execute_leg(chk, "conv", exes["conv"], conv, ["sstream", "short3"], "gcc", 10, stats)
-    csub = conv if not quick or only_inputs is not None else [i for i in conv if rnd.random() < 1 / 4]
-    execute_leg(chk, "conv", exes_san["conv"], csub, ["sstream", "short3"], "san", 60, stats, leakcheck=True)
+        plan_leg(tasks, part, exes_san[part], sub, media_san, "san", 60, leakcheck=True)
+    plan_leg(tasks, "conv", exes["conv"], conv, ["sstream", "short3"], "gcc", 10)
+    csub = conv if not quick or only_inputs is not None else [i for i in conv if rnd.random() < 1 / 6]
+    plan_leg(tasks, "conv", exes_san["conv"], csub, ["sstream", "short3"], "san", 60, leakcheck=True)
+    t1 = time.time()
+    execute(chk, tasks, stats)
+    chk.cov["execute_and_judge_wall_s"] = round(time.time() - t1, 1)
     for i in docs + conv:
         chk._distinct.add((i["fmt"], json.dumps(i["rle"]), json.dumps(i["u"])))
     chk.cov["runs"] = {"%s/%s" % k: v for k, v in sorted(stats["runs"].items())}
     chk.cov["inputs_executed"] = {"%s/%s" % k: v for k, v in sorted(stats["inputs"].items())}
-    chk.cov["execution_wall_s"] = {"%s/%s" % k: v for k, v in sorted(stats["wall"].items())}
+    chk.cov["harness_process_seconds"] = {"%s/%s" % k: v for k, v in sorted(stats["wall"].items())}
     chk.cov["outcomes"] = {"%s/%s/%s" % k: v for k, v in sorted(stats["outcomes"].items())}
     chk.cov["rejected_runs_by_class"] = {"%s | %s | %s" % k: v for k, v in sorted(stats["rejected"].items())}
     chk.cov["rejected_inputs_by_class"] = {"%s | %s | %s" % k: v for k, v in sorted(stats["rejected_inputs"].items())}
